@@ -16,6 +16,7 @@ import (
 	"sort"
 	"strings"
 
+	"golang.org/x/tools/go/ast/astutil"
 	"golang.org/x/tools/go/packages"
 )
 
@@ -451,4 +452,55 @@ func (w *World) enclosingFunc(p *packages.Package, pos token.Pos) *ast.FuncDecl 
 		}
 	}
 	return nil
+}
+
+// ctxKey renders a stable, line-free description of the construct containing
+// pos: the enclosing function plus the labels of every enclosing case clause
+// ("VM.run/parser.OpSliceIndex/*ImmutableArray").
+func (w *World) ctxKey(pos token.Pos) string {
+	if !pos.IsValid() {
+		return "?"
+	}
+	for _, p := range w.All {
+		for _, f := range p.Syntax {
+			if pos < f.Pos() || pos > f.End() {
+				continue
+			}
+			path, _ := astutil.PathEnclosingInterval(f, pos, pos)
+			var parts []string
+			for i := len(path) - 1; i >= 0; i-- {
+				switch n := path[i].(type) {
+				case *ast.FuncDecl:
+					parts = append(parts, funcName(n))
+				case *ast.FuncLit:
+					parts = append(parts, "func-literal")
+				case *ast.CaseClause:
+					if n.List == nil {
+						parts = append(parts, "default")
+					} else {
+						var ls []string
+						for _, e := range n.List {
+							ls = append(ls, w.Src(e))
+						}
+						parts = append(parts, strings.Join(ls, ","))
+					}
+				}
+			}
+			return strings.Join(parts, "/")
+		}
+	}
+	return "?"
+}
+
+// nodeAt returns the innermost AST node path at pos.
+func (w *World) pathAt(pos token.Pos) ([]ast.Node, *packages.Package) {
+	for _, p := range w.All {
+		for _, f := range p.Syntax {
+			if pos >= f.Pos() && pos <= f.End() {
+				path, _ := astutil.PathEnclosingInterval(f, pos, pos)
+				return path, p
+			}
+		}
+	}
+	return nil, nil
 }
